@@ -463,11 +463,16 @@ def elabMember (Γ : Env) (name : String) (e : IExpr) (τ : ETy) : Res :=
     | none => .error (.unsupported "undeclared type")
   | .scalar s =>
     match slotsOf scalarSwizzle 1 name.toList with
-    | some slots => .ok (.swizzle e slots, ⟨⟨τ.ty.mod, swizzleLayer s slots.length⟩, swizzleVT slots τ.vt⟩)
+    | some slots =>
+      -- fix c805c03: `if swizzle_slots.len() > 4 { return Err(InvalidSwizzle) }` after the character loop
+      if scalarMaxSlots < slots.length then .error (.reject "InvalidSwizzle") else
+      .ok (.swizzle e slots, ⟨⟨τ.ty.mod, swizzleLayer s slots.length⟩, swizzleVT slots τ.vt⟩)
     | none => .error (.reject "TypeDoesNotHaveMembers")
   | .vector s x =>
     match slotsOf vectorSwizzle x name.toList with
-    | some slots => .ok (.swizzle e slots, ⟨⟨τ.ty.mod, swizzleLayer s slots.length⟩, swizzleVT slots τ.vt⟩)
+    | some slots =>
+      if vectorMaxSlots < slots.length then .error (.reject "InvalidSwizzle") else
+      .ok (.swizzle e slots, ⟨⟨τ.ty.mod, swizzleLayer s slots.length⟩, swizzleVT slots τ.vt⟩)
     | none => .error (.reject "InvalidSwizzle")
   | .matrix s x y =>
     match readMatrix x y name.toList .start false false [] with
